@@ -263,12 +263,14 @@ class _mark_ignore_name(ast.NodeTransformer):
 
 
 class _rewrite_captured_vars(ast.NodeTransformer):
-    def __init__(self, cv: inspect.ClosureVars):
+    def __init__(self, cv: inspect.ClosureVars, expanding: Tuple[Callable, ...] = ()):
         # A name the function closes over refers to the enclosing scope, even if the module
         # has a global with the same name.
         self._lookup_dict: Dict[str, Any] = dict(cv.globals)
         self._lookup_dict.update(cv.nonlocals)
         self._ignore_stack = []
+        # The helper functions we are in the middle of replacing by their source
+        self._expanding = expanding
 
     def visit_Name(self, node: ast.Name) -> Any:
         if self.is_arg(node.id):
@@ -288,8 +290,17 @@ class _rewrite_captured_vars(ast.NodeTransformer):
                 # If it is something we know how to make into a literal, we just send it down
                 # like that.
                 return as_literal(v)
-            elif callable(v) and ((lm := safe_parse_wrapper(v)) is not None):
-                return lm
+            elif (
+                callable(v)
+                and not any(v is f for f in self._expanding)
+                and ((lm := safe_parse_wrapper(v)) is not None)
+            ):
+                # The helper's own free names mean what they mean where it was defined
+                try:
+                    helper_cv = global_getclosurevars(v)
+                except TypeError:
+                    return lm
+                return _rewrite_captured_vars(helper_cv, self._expanding + (v,)).visit(lm)
             else:
                 # If it is a local function, we need to parse it as an AST
                 return node
